@@ -985,9 +985,10 @@ fn write_evidence(id: &str, tier: &str, seed: u64, st: &Stats, violations: usize
         },
         "assumptions": [
             "sampling, not enumeration: a clean batch is evidence, not proof",
-            "runs as uid 0 in this sandbox: kernel permission checks do not deny access",
+            "SEQ / CONC / ENV runs execute as the invoking user (uid 0 in this sandbox); DIFF-world workers (C02, the DIFF legs and Stdfs twins) drop to uid 65534 and keep owner access on everything they create, so no kernel permission fault is injected",
             "umask 022",
-            "reference model (RefFs) and hook H2 snapshot are trusted; the snapshot is cross-checked against Display"
+            "reference model (RefFs), reference path resolver and hook H2 snapshot are trusted; the snapshot is cross-checked against Display",
+            "CONC: writer-preferring lock admission model (std futex RwLock on Linux); operations that hang or panic sequentially are judged by C12, not scheduled"
         ],
         "wall_s": wall,
         "violations": violations
